@@ -270,6 +270,22 @@ N4_THOROUGH = [(1, 1, 1, 1), (2, 2, 2, 2), (5, 5, 5, 5), (1, 2, 5, 1), (5, 2, 1,
 PAIRS_LAZY_QUICK = [(1, 2), (5, 2)]
 PAIRS_CRLF_QUICK = [(1, 2), (5, 1), (2, 5)]
 N3_ALLK = [(1, 1, 1), (1, 2, 5), (5, 2, 1), (2, 5, 2), (5, 5, 1), (2, 1, 5)]
+# size classes beyond {1, 2, 5}: Z = zero-length record (FASTA / FASTQ), W = wide numbers (delimited formats)
+Z, W = ref.ZERO, ref.WIDE
+ZERO_QUICK_FIRST = [(1, Z), (Z, 5, Z)]                   # eager and lazy
+ZERO_QUICK = [(Z,), (Z, Z), (Z, 2), (2, Z, 5), (1, 2, Z)]
+ZERO_QUICK_CRLF = [(1, Z), (Z, 2, Z)]
+ZERO_QUICK_LOW = [(2, Z), (Z, 1, Z)]
+WIDE_QUICK_FIRST = [(W, 2, 1, W)]
+WIDE_QUICK_LAZY = [(W, W, 1, 1, W)]
+WIDE_QUICK_CRLF = [(W, 1, 2, W)]
+WIDE_QUICK_LOW = [(W, 1, W)]
+ZERO_N4 = [(Z, Z, Z, Z), (1, Z, Z, 2), (Z, 5, 2, Z), (5, Z, 1, Z), (2, 2, Z, 5), (Z, 1, 5, 1)]
+WIDE_ALLK = [(W, 1, W), (W, 2, 1, W), (W, W, 1, 1, W)]
+WIDE_NEAR_LAZY = [(W, 1), (W, W), (W, 1, 1), (W, W, 1), (W, 2, W, 1), (W, 1, W, 1, 2, W)]
+WIDE_NEAR = [(1, W), (W, 2), (2, W), (1, W, 1), (W, 1, 2), (W, 5, 1, W), (W, 1, 1, 1, W)]
+WIDE_CRLF = [(W, 1), (W, 1, W), (W, 2, 1, W), (W, W, 1, 1, W)]
+WIDE_LOW = [(W, 1, W), (W, 2, 1, W)]
 
 
 def plan(tier):
@@ -288,6 +304,22 @@ def plan(tier):
                     for crlf in crlfs:
                         yield fmt, tuple(sizes), fnl, crlf
 
+    def xfiles(tuples, crlfs=(False,), fnls=(True, False)):
+        """files over the size classes ZERO / WIDE, for the formats that have the class.  A file whose LAST record is the
+        zero-length one is only built with a final newline; SAM is left out of the CRLF files (every CRLF SAM read
+        raises: the known whole-read defect, already reported by the classic cases)"""
+        for sizes in tuples:
+            for fmt in fmts:
+                if not all(c in ref.FORMATS[fmt].size_classes for c in sizes):
+                    continue
+                for fnl in fnls:
+                    if not fnl and sizes[-1] == Z:
+                        continue
+                    for crlf in crlfs:
+                        if crlf and W in sizes and fmt.startswith("sam"):
+                            continue
+                        yield fmt, tuple(sizes), fnl, crlf
+
     singles = list(itertools.product(SIZES, repeat=1))
     pairs = list(itertools.product(SIZES, repeat=2))
     triples = list(itertools.product(SIZES, repeat=3))
@@ -298,6 +330,11 @@ def plan(tier):
         for f in files([(1, 2, 5)], lf):
             yield f + (both, EL, ("open",), "tight")
         for f in files([(1, 2, 5)], cr):
+            yield f + (both, E, ("open",), "tight")
+        # zero-length records (last / first / middle record) and numbers of width 1..2 and 9 in one column
+        for f in xfiles(ZERO_QUICK_FIRST, lf):
+            yield f + (both, EL, ("open",), "tight")
+        for f in xfiles(WIDE_QUICK_FIRST, lf):
             yield f + (both, E, ("open",), "tight")
         for f in files([(1, 2, 5)], lf):
             yield f + (both, (None,), ("fileobj",), "tight")
@@ -312,10 +349,24 @@ def plan(tier):
             yield f + (both, E, ("open",), "tight")
         for f in files(N3_QUICK + N4_QUICK, lf):
             yield f + (both, E, ("open",), "tight")
+        for f in xfiles(WIDE_QUICK_LAZY, lf, (True,)):
+            yield f + (both, (True,), ("open",), "tight")
+        for f in xfiles(ZERO_QUICK, lf):
+            yield f + (both, E, ("open",), "tight")
+        for f in xfiles(ZERO_QUICK_CRLF + WIDE_QUICK_CRLF, cr, (True,)):
+            yield f + (both, E, ("open",), "tight")
+        for f in xfiles(ZERO_QUICK_LOW + WIDE_QUICK_LOW, lf, (True,)):
+            yield f + (both, (None,), ("fileobj",), "tight")
+            yield f + (("gzipm",), (False,), ("open",), "tight")
     else:
         def low_level(tuples, crlfs, lvl):
             # the low-level route (file objects, lazy left at its default) and gzip files with one member per entry
             for f in files(tuples, crlfs):
+                yield f + (both, (None,), ("fileobj",), lvl)
+                yield f + (("gzipm",), (False,), ("open",), lvl)
+
+        def low_x(fs, lvl):
+            for f in fs:
                 yield f + (both, (None,), ("fileobj",), lvl)
                 yield f + (("gzipm",), (False,), ("open",), lvl)
         for f in files([()] + singles, lf):
@@ -342,6 +393,28 @@ def plan(tier):
             yield f + (both, E, ("open",), "near")
         for f in files(N4_THOROUGH[3:8], cr):
             yield f + (both, E, ("open",), "near")
+        # zero-length records: every tuple over {0, 1, 2, 5} of 1..3 records with at least one 0, every chunk size
+        zc = (Z,) + SIZES
+        zero_all = [t for n in (1, 2, 3) for t in itertools.product(zc, repeat=n) if Z in t]
+        for f in xfiles(zero_all, lf):
+            yield f + (both, EL, ("open",), "all")
+        for f in xfiles(ZERO_N4, lf):
+            yield f + (both, EL, ("open",), "near")
+        for f in xfiles([t for t in zero_all if len(t) < 3 or sum(t) % 2 == 0], cr):
+            yield f + (both, E if len(f[1]) == 3 else EL, ("open",), "near")
+        for t in low_x(xfiles([(Z,), (2, Z), (Z, 5), (Z, 1, Z), (5, Z, 2), (1, 2, Z)], lf), "all"):
+            yield t
+        # numbers of width 1..2 and 9 in one column
+        for f in xfiles(WIDE_ALLK, lf):
+            yield f + (both, E, ("open",), "all")
+        for f in xfiles(WIDE_NEAR_LAZY, lf):
+            yield f + (both, EL, ("open",), "near")
+        for f in xfiles(WIDE_NEAR, lf):
+            yield f + (both, E, ("open",), "near")
+        for f in xfiles(WIDE_CRLF, cr):
+            yield f + (both, E, ("open",), "near")
+        for t in low_x(xfiles(WIDE_LOW, lf), "near"):
+            yield t
 
 
 def sampled_tasks(rng, tier):
@@ -358,6 +431,37 @@ def sampled_tasks(rng, tier):
         ks = set(rng.randint(1, n + 2) for _ in range(10 if tier == "quick" else 40))
         ks |= set([d for d in range(1, n + 1) if (n % d == 0 or fc.tail % d == 0 or fc.body_size % d == 0)][:16])
         yield fmt, sizes, fnl, crlf, ("plain", "gzip"), (bool(j % 2),), ("open",), sorted(ks)
+
+
+def sampled_tasks_x(rng, tier):
+    """the same above the bounds for the size classes ZERO / WIDE: seeded files of 5..12 entries over the classes of the
+    format; FASTA / FASTQ files end in a zero-length record every other time (then with a final newline), delimited
+    files begin with a wide line (so read() has the short lines far from the start of its buffer)"""
+    fmts = list(ref.FORMATS)
+    n_files = 16 if tier == "quick" else 64
+    for j in range(n_files):
+        fmt = fmts[j % len(fmts)]
+        classes = ref.FORMATS[fmt].size_classes
+        if Z in classes:
+            pool = (Z, Z, 1, 2, 5)
+        else:
+            pool = (W, 1, 1, 2)
+        sizes = [rng.choice(pool) for _ in range(rng.randint(5, 12))]
+        fnl = rng.random() < 0.5
+        if Z in classes:
+            if (j // len(fmts)) % 2 == 0:
+                sizes[-1] = Z
+            if sizes[-1] == Z:
+                fnl = True
+        else:
+            sizes[0] = W
+        sizes = tuple(sizes)
+        fc = FileCase(fmt, sizes, fnl, False)
+        n = len(fc.data)
+        ks = set(rng.randint(1, n + 2) for _ in range(8 if tier == "quick" else 30))
+        ks |= set([d for d in range(1, n + 1) if (n % d == 0 or fc.tail % d == 0 or fc.body_size % d == 0)][:10])
+        ks |= {n + 2}
+        yield fmt, sizes, fnl, False, ("plain", "gzip"), (bool(j % 2),), ("open",), sorted(ks)
 
 
 def _work(args):
@@ -412,12 +516,23 @@ def run(tier="quick", seed=0):
                   "lazy": [False, True, "default (file-object route)"] if tier != "quick" else "eager everywhere; lazy on LF files: 0..1 entries, pairs %r, (1,2,5)" % (PAIRS_LAZY_QUICK,),
                   "route": ["bnp.open(path)", "NpDataclassReader(NumpyFileReader(file object)) on a subset"],
                   "sampled": "seeded files of 5..12 entries, seeded chunk sizes + divisors of file/body/last-entry size",
+                  "zero_length_records": ("FASTA/FASTQ files with size class 0 (empty sequence / quality line): %r, CRLF %r, low-level route %r; "
+                                          "a last zero-length record only with a final newline"
+                                          % (ZERO_QUICK_FIRST + ZERO_QUICK, ZERO_QUICK_CRLF, ZERO_QUICK_LOW)) if tier == "quick" else
+                                         ("every tuple over {0,1,2,5} of 1..3 records with a 0 (every chunk size; CRLF: near), 4 records: %r" % (ZERO_N4,)),
+                  "mixed_width_numbers": ("delimited files with size class 9 (1-letter names, 9-digit coordinates; GTF 10 digits) next to 1 and 2: %r"
+                                          % (WIDE_QUICK_FIRST + WIDE_QUICK_LAZY + WIDE_QUICK_CRLF + WIDE_QUICK_LOW,)) if tier == "quick" else
+                                         ("every chunk size: %r; near: %r; CRLF (not SAM): %r" % (WIDE_ALLK, WIDE_NEAR_LAZY + WIDE_NEAR, WIDE_CRLF)),
+                  "sampled_new_classes": "seeded files of 5..12 entries over {0,1,2,5} (FASTA/FASTQ) / {9,1,2} (delimited, first line wide)",
                   "worker_processes": workers}
     deadline = col.t0 + col.budget_s
     tasks = list(plan(tier))
     # the sampled larger files early (they are few), but after the first small files so that the first recorded
     # failure of a class is a small one
     tasks[64:64] = list(sampled_tasks(col.rng, tier))
+    xs = list(sampled_tasks_x(col.rng, tier))       # drawn after the classic sample: that one stays what it was
+    at = 160 if tier == "quick" else len(tasks)
+    tasks[at:at] = xs
     args = [(t, tier, deadline) for t in tasks]
     pool = None
     try:
